@@ -22,6 +22,7 @@ type State struct {
 	hist  map[types.Object][]Value // every value assigned to a local on this path, in order
 	tmps  map[string]Value         // last value of every evaluated compound expression, by source text
 	allocs []SliceV                // slices made on this path (allocation model)
+	fieldOv map[string]Value       // fields of symbolic structs assigned on this path, by (struct name, key, field)
 }
 
 func newState() *State {
@@ -49,6 +50,12 @@ func (s *State) clone() *State {
 	n.scope = append([]types.Object(nil), s.scope...)
 	n.path = append([]*Term(nil), s.path...)
 	n.allocs = append([]SliceV(nil), s.allocs...)
+	if s.fieldOv != nil {
+		n.fieldOv = make(map[string]Value, len(s.fieldOv))
+		for k, v := range s.fieldOv {
+			n.fieldOv[k] = v
+		}
+	}
 	return n
 }
 
@@ -526,7 +533,20 @@ func entryDerived(t *Term) bool {
 }
 
 // field returns (materialising lazily) a field of a symbolic struct.
+func fieldOvKey(sv *StructV, name string) string {
+	k := sv.Prefix
+	for _, t := range sv.Key {
+		k += "|" + t.Key()
+	}
+	return k + "." + name
+}
+
 func (c *FuncCtx) field(st *State, sv *StructV, name string) Value {
+	if st != nil && st.fieldOv != nil {
+		if v, ok := st.fieldOv[fieldOvKey(sv, name)]; ok {
+			return v
+		}
+	}
 	if v, ok := sv.F[name]; ok {
 		return v
 	}
